@@ -101,7 +101,6 @@ IrregularArrow(toks) == \E k \in DOMAIN toks : toks[k].k = "arrow" /\ ~RegularAr
 EmptyGroup(toks)     == \E k \in DOMAIN toks : toks[k].k = "lp" /\ k < Len(toks) /\ toks[k+1].k = "rp"
 OutsideFlavour(toks, F) == \E k \in DOMAIN toks :
                              \/ toks[k].k = "op" /\ toks[k].v \notin F.ops
-                             \/ toks[k].k = "arrow" /\ ~F.arrows
                              \/ toks[k].k = "lp" /\ ~F.plain /\ (k = 1 \/ toks[k-1].k \notin {"op", "cond"})
 
 (* recursive descent over a balanced, non-dangling token sequence without open points:
@@ -125,7 +124,8 @@ PSeq(toks, pos) ==
        IN [nodes |-> it.nodes \o rest.nodes, pos |-> rest.pos]
 
 Parse(toks, F) ==
-  IF IrregularArrow(toks) THEN [st |-> "unspec", nodes |-> <<>>]
+  IF IrregularArrow(toks) \/ (~F.arrows /\ \E k \in DOMAIN toks : toks[k].k = "arrow")
+  THEN [st |-> "unspec", nodes |-> <<>>]
   ELSE IF Unbalanced(toks) \/ Dangling(toks) THEN [st |-> "error", nodes |-> <<>>]
   ELSE IF EmptyGroup(toks) \/ OutsideFlavour(toks, F) THEN [st |-> "unspec", nodes |-> <<>>]
   ELSE [st |-> "ok", nodes |-> PSeq(toks, 1).nodes]
@@ -152,22 +152,23 @@ Val(n, U, T, mode) ==
            mem  == {k \in DOMAIN vs : ~Dropped(k)}
            nhit == Cardinality({k \in mem : vs[k] # "F"})
        IN IF mem = {} THEN "V"             \* emptied by conditionals: counts as satisfied
-          ELSE LET ok == CASE n.t = "any" -> nhit >= 1
-                               [] n.t = "one" -> nhit = 1
-                               [] n.t = "amo" -> nhit <= 1
+          ELSE LET ok == (CASE n.t = "any" -> nhit >= 1
+                                [] n.t = "one" -> nhit = 1
+                                [] n.t = "amo" -> nhit <= 1)
                IN IF ok THEN "T" ELSE "F"
 
 SatMode(ns, U, T, mode) == AllOf([k \in DOMAIN ns |-> Val(ns[k], U, T, mode)]) # "F"
 Sat(ns, U, T)    == SatMode(ns, U, T, "reduce")
 Unspec(ns, U, T) == SatMode(ns, U, T, "reduce") # SatMode(ns, U, T, "strict")
 
-\* same meaning wherever the reference structure a is specified
-SameMeaning(a, b, flags, leaves) ==
-  \A U \in SUBSET flags : \A T \in SUBSET leaves : Unspec(a, U, T) \/ Sat(a, U, T) = Sat(b, U, T)
-\* b is a evaluated under U
-EvaluatedMeaning(a, U, b, leaves) ==
-  \A T \in SUBSET leaves : Unspec(a, U, T) \/ Sat(b, {}, T) = Sat(a, U, T)
-
+\* Only a structure with a conditional somewhere below a group / conditional that is a member of an
+\* any-of style group can have an unspecified point (elsewhere the two readings coincide; DepSet_MC
+\* checks this), so the second reading is evaluated for such structures only.
+RECURSIVE Risky(_)
+Risky(ns) == IF ns = <<>> THEN FALSE
+             ELSE \/ /\ Head(ns).t \in {"any", "one", "amo"}
+                     /\ \E k \in DOMAIN Head(ns).ch : Head(ns).ch[k].t # "leaf" /\ HasCond(Head(ns).ch[k].ch)
+                  \/ Risky(Head(ns).ch) \/ Risky(Tail(ns))
 (* ------------------------------ evaluation ------------------------------ *)
 (* reference: enabled conditionals are replaced by their contents (kept together as an all-of
    group unless the parent is one), disabled ones and everything emptied by them vanish *)
@@ -180,4 +181,35 @@ EvNode(n, U, parent) ==
     [] OTHER        -> LET r == EvSeq(n.ch, U, n.t) IN IF r = <<>> THEN <<>> ELSE <<Grp(n.t, r)>>
 EvSeq(ns, U, parent) == IF ns = <<>> THEN <<>> ELSE EvNode(Head(ns), U, parent) \o EvSeq(Tail(ns), U, parent)
 Evaluate(ns, U) == EvSeq(ns, U, "all")
+
+(* ------------------------------ comparing meanings ------------------------------ *)
+\* Sat(a, U, T) looks only at the leaves that are reachable under U, i.e. Leaves(Evaluate(a, U))
+\* (checked by DepSet_MC), so T ranges over those.
+\* same meaning wherever the reference structure a is specified
+SameMeaning(a, b, flags) ==
+  LET risky == Risky(a) IN
+  \A U \in SUBSET flags : \A T \in SUBSET (Leaves(Evaluate(a, U)) \cup Leaves(Evaluate(b, U))) :
+     (risky /\ Unspec(a, U, T)) \/ Sat(a, U, T) = Sat(b, U, T)
+\* b is a evaluated under U
+EvaluatedMeaning(a, U, b) ==
+  LET risky == Risky(a) IN
+  \A T \in SUBSET (Leaves(Evaluate(a, U)) \cup Leaves(b)) : (risky /\ Unspec(a, U, T)) \/ Sat(b, {}, T) = Sat(a, U, T)
+
+(* ------------------------------ corruptions ------------------------------ *)
+\* one-token corruptions of a token sequence: drop, duplicate, insert a foreign token
+ExtraToks == {LP, RP, ARROW, Tok("op", "||", FALSE), Tok("cond", "u", FALSE), Tok("leaf", "zz/zz", FALSE)}
+DropTok(s, k)   == SubSeq(s, 1, k - 1) \o SubSeq(s, k + 1, Len(s))
+InsTok(s, k, x) == SubSeq(s, 1, k) \o <<x>> \o SubSeq(s, k + 1, Len(s))
+Corruptions(s)  == {DropTok(s, k) : k \in DOMAIN s} \cup {InsTok(s, k, s[k]) : k \in DOMAIN s}
+                   \cup {InsTok(s, k, x) : <<k, x>> \in (0..Len(s)) \X ExtraToks}
+
+(* ------------------------------ enumeration ------------------------------ *)
+\* every well-formed structure with exactly / at most n nodes over leaves L, group kinds K, flags C
+RECURSIVE ForestsN(_, _, _, _), NodesN(_, _, _, _)
+NodesN(L, K, C, n) == IF n = 1 THEN L
+                      ELSE {Grp(x[1], x[2]) : x \in K \X ForestsN(L, K, C, n - 1)}
+                           \cup {Cond(x[1][1], x[1][2], x[2]) : x \in (C \X BOOLEAN) \X ForestsN(L, K, C, n - 1)}
+ForestsN(L, K, C, n) == IF n = 0 THEN {<<>>}
+                        ELSE UNION {{<<x[1]>> \o x[2] : x \in NodesN(L, K, C, k) \X ForestsN(L, K, C, n - k)} : k \in 1..n}
+ForestsUpTo(L, K, C, m) == UNION {ForestsN(L, K, C, n) : n \in 0..m}
 =========================================================================
